@@ -16,6 +16,13 @@ import MV.Model.ActorTimers
    executable actor model — which follows the code — runs such a turn in the witness scenario below
    (the same scenario is the `slow` case of suite `actor-timers`, where the implementation answers
    the same).
+4. (fixed by the `fix:` commit "a task is not run before its due time") the timing wheel can hand a
+   timer out a whole lap before its expiration (a bucket popped from the delay queue and re-armed for
+   the next lap before the wheel's loop flushes it moves the wheel's clock ahead; reproduced on the
+   real code under CPU load: tick 10 ms, firing 92 ms before its due time).  Before the repair the
+   timer's goroutine ran the task at once: `runTimerLegacy` transcribes that, and the witness below is
+   a firing at time 0 of a task due at 35.  `MV.Props.C08.C08_not_early` now holds for an
+   unconstrained wheel because `Next` waits.
 -/
 namespace MV.Findings.C08
 open MV.Model.Scheduler MV.Model.ActorTimers
@@ -56,5 +63,17 @@ def staleScenario : Actor :=
     cancelled their task -/
 theorem C08_callback_after_restart : stale staleScenario = true ∧ staleScenario.inc = 1 := by
   decide
+
+/-- the goroutine of a timer as it was before the repair: no wait for the expiration -/
+def runTimerLegacy (s : Sched) (i : Nat) : Sched :=
+  match (s.objs i).timer with
+  | .inflight e => if i < s.nobjs then timerTask s i e else s
+  | _ => s
+
+/-- an early hand-out by the wheel used to be an early firing: task due at 35 fires at time 0 -/
+theorem wheel_early_handout :
+    (runTimerLegacy (step (step (init 10) (.reg 0 35 20 3)).1 (.expire 0)).1 0).log.map (fun f => (f.exp, f.time))
+      = [(35, 0)] ∧
+    (step (step (step (init 10) (.reg 0 35 20 3)).1 (.expire 0)).1 (.run 0)).1.log = [] := by decide
 
 end MV.Findings.C08
